@@ -368,9 +368,8 @@ func (g *gen) makeIface(n *node, t types.Type, v Val) string {
 	fact := and(app("=", app("itag", term), tag), app("=", app(un, term), s), not(app("=", term, "inil")))
 	if n != nil {
 		n.assume(fact)
-	} else {
-		g.globalAx = append(g.globalAx, fact)
 	}
+	// without a node (inside contract expressions) the quantified box/unbox axioms of the prelude apply
 	return term
 }
 
